@@ -194,12 +194,16 @@ def parseArgs (a : Xml) : List (Str × Str × Str) :=
   (a.findall2 .service .argumentList .argument).filterMap fun g =>
     completeArg (g.findtext .service .name) (g.findtext .service .direction) (g.findtext .service .relatedStateVariable)
 
+/-- `UpnpAction.Argument(arg_info, svs[arg_info.state_variable_name])` -/
+def bindArg (lookup : Str → Option (VarM F)) (g : Str × Str × Str) : Except FErr ArgM :=
+  match lookup g.2.2 with
+  | some v => .ok { name := g.1, direction := g.2.1, related := v.name, relatedType := v.dataType }
+  | none => .error .keyError
+
 /-- `UpnpAction(...)`: each complete argument is bound to the state variable `lookup` finds for
     the NAME given as its related state variable; no such variable: KeyError -/
 def actionOf (lookup : Str → Option (VarM F)) (name : Option Str) (args : List (Str × Str × Str)) : Except FErr ActM :=
-  match mapE (fun (g : Str × Str × Str) => match lookup g.2.2 with
-      | some v => Except.ok ({ name := g.1, direction := g.2.1, related := v.name, relatedType := v.dataType } : ArgM)
-      | none => Except.error FErr.keyError) args with
+  match mapE (bindArg lookup) args with
   | .ok as => .ok { name := name.getD ['n', 'a', 'm', 'e', 'l', 'e', 's', 's'], args := as }
   | .error e => .error e
 
